@@ -9,6 +9,8 @@ import PeroVerif.Model.Clip
 import PeroVerif.Lemmas.Decimal
 import PeroVerif.Lemmas.Assign
 import PeroVerif.Lemmas.Clip
+import PeroVerif.Model.MergeLoop
+import PeroVerif.Lemmas.MergeLoop
 
 namespace C11
 open Asg Py
@@ -134,5 +136,69 @@ theorem clip_piece_length (r : Rect) (pts : List Pt) : ∀ piece ∈ clipPolylin
 
 example : clipPolyline ⟨0, 0, 10, 10⟩ [(-5, 5), (5, 5), (5, 20), (8, 20), (8, 5)] =
     [[(0, 5), (5, 5), (5, 10)], [(8, 10), (8, 5)]] := by decide +kernel
+
+/-! ### the merge loop of `LayoutExtractor.process_page` (`MERGE_LINES`): `merge_lines` + re-assignment until the
+number of lines of the region stops changing.  Model: `Model/MergeLoop.lean`. -/
+section mergeloop
+open MergeLoop
+
+/-- The grouping pass of `merge_lines` partitions the removed lines: `merged_lines` is exactly the concatenation of
+the groups, without repetition, and holds only valid indices — every removed line goes into exactly one new line. -/
+theorem merge_groups_partition (c : Nat → Nat → Bool) (n : Nat) :
+    (grouping c n).1.flatten = (grouping c n).2 ∧ (grouping c n).2.Nodup ∧ (∀ i ∈ (grouping c n).2, i < n) ∧
+    (grouping c n).1.length = n :=
+  MergeLoop.grouping_partition c n
+
+/-- `merge_lines` never returns more lines than it was given, whatever the compatibility relation. -/
+theorem merge_count_le (c : Nat → Nat → Bool) (n : Nat) : mergedCount c n ≤ n :=
+  MergeLoop.mergedCount_le c n
+
+theorem mergeLines_length_le (ls : List Ln) : (mergeLines ls).length ≤ ls.length :=
+  MergeLoop.mergeLines_length_le ls
+
+/-- A line that is compatible with no other line is returned unchanged. -/
+theorem merge_keeps_isolated (ls : List Ln) (i : Nat) (hi : i < ls.length)
+    (hiso : ∀ j, j < ls.length → j ≠ i → compat (ls.getD i default) (ls.getD j default) = false ∧
+      compat (ls.getD j default) (ls.getD i default) = false) :
+    ls.getD i default ∈ mergeLines ls :=
+  MergeLoop.mergeLines_keeps_isolated ls i hi hiso
+
+/-- Re-assigning detected lines to ONE empty region places each line at most once. -/
+theorem assign_count_le (mask : Nat → Nat → Option G) (lineBoxes : List BBox) (r : Region G) (hr : r.lines = []) :
+    ∀ r', (assign mask lineBoxes [r])[0]? = some r' → r'.lines.length ≤ lineBoxes.length :=
+  MergeLoop.assign_one_region_count mask lineBoxes r hr
+
+/-- TERMINATION of the merge loop: for every step that does not increase the number of lines (merge, then re-assign
+to the region) the loop stops after at most `n + 1` iterations (`n` = lines of the region); the fuel `n + 1` of the
+model is never exhausted and more fuel changes nothing. -/
+theorem merge_loop_terminates {α : Type} (step : List α → List α) (hstep : ∀ l, (step l).length ≤ l.length)
+    (ls : List α) :
+    ∃ r k, loop step (ls.length + 1) ls = some (r, k) ∧ 1 ≤ k ∧ k ≤ ls.length + 1 ∧ r.length ≤ ls.length ∧
+      ∀ extra, loop step (ls.length + 1 + extra) ls = some (r, k) :=
+  MergeLoop.loop_terminates step hstep ls
+
+/-- … in particular for the modelled `merge_lines` followed by ANY re-assignment that places each line at most once
+(`assign_count_le`), e.g. shapely dropping or clipping lines. -/
+theorem merge_loop_terminates_model (reassign : List Ln → List Ln) (hre : ∀ l, (reassign l).length ≤ l.length)
+    (ls : List Ln) :
+    ∃ r k, loop (fun l => reassign (mergeLines l)) (ls.length + 1) ls = some (r, k) ∧ k ≤ ls.length + 1 :=
+  let ⟨r, k, h, _, hk, _, _⟩ := MergeLoop.loop_terminates (fun l => reassign (mergeLines l))
+    (fun l => Nat.le_trans (hre _) (MergeLoop.mergeLines_length_le l)) ls
+  ⟨r, k, h, hk⟩
+
+/-- When the loop stops, the last step did not change the number of lines (the code's exit condition). -/
+theorem merge_loop_exit {α : Type} (step : List α → List α) (fuel : Nat) (ls r : List α) (k : Nat)
+    (h : loop step fuel ls = some (r, k)) : ∃ prev, r = step prev ∧ (step prev).length = prev.length :=
+  MergeLoop.loop_exit step fuel ls r k h
+
+/-- non-vacuity: two adjacent words on one text line and a third line far below: the first pass fuses the two
+(3 → 2 lines), the second pass changes nothing, the loop stops after 2 iterations -/
+example :
+    let ls : List Ln := [⟨0, 100, 50, 20, 5⟩, ⟨110, 200, 52, 20, 5⟩, ⟨0, 200, 300, 20, 5⟩]
+    compat (ls.getD 0 default) (ls.getD 1 default) = true ∧ (mergeLines ls).length = 2 ∧
+    (loop mergeLines 4 ls).map (fun r => (r.1.length, r.2)) = some (2, 2) := by
+  decide
+
+end mergeloop
 
 end C11
